@@ -390,14 +390,32 @@ func callProp[C any](prop func(C) *Outcome, c C) (o *Outcome) {
 func runProp[C any](t *testing.T, id, rule string, gen func(*rapid.T) C, prop func(C) *Outcome) {
 	registerReplay(id, prop)
 	rec(id).rule = rule
+	// Shrinking re-runs the property on many candidates; when a failure is a stall, every failing candidate costs the
+	// whole stall bound, and rapid's own shrink-time limit is only looked at between passes. So shrinking gets a
+	// budget of its own: once it is used up, candidates already known to fail fail again (from memory) and new ones
+	// are not tried any more, which lets rapid finish at once with the smallest failing case found so far.
+	budget := time.Duration(envInt("VERIF_SHRINK_BUDGET_S", 75)) * time.Second
+	var firstFail time.Time
+	knownFail := map[string]string{}
 	rapid.Check(t, func(rt *rapid.T) {
 		c := gen(rt)
+		cj, _ := json.Marshal(c)
+		if !firstFail.IsZero() && time.Since(firstFail) > budget {
+			if msg, ok := knownFail[string(cj)]; ok {
+				rt.Fatalf("%s: %s", id, msg)
+			}
+			return
+		}
 		o := runCase(id, c, prop)
 		if o.Fail != "" {
 			if os.Getenv("VERIF_SURVEY") != "" {
 				surveyAdd(id, o.Fail)
 				return
 			}
+			if firstFail.IsZero() {
+				firstFail = time.Now()
+			}
+			knownFail[string(cj)] = o.Fail
 			rt.Fatalf("%s: %s", id, o.Fail)
 		}
 	})
